@@ -15,7 +15,7 @@ check(
 )
 check(
     "C02",
-    "Hypothesis-generated integer-exact profiles (ties, plateaus, monotone, top-bin peaks, boundary maxima) lifted to 2D and embedded in datasets, compared with a plain-loop reference peak finder; exhaustive enumeration of all short 1D profiles over {0,1,2,3}",
+    "Hypothesis-generated integer-exact profiles (ties, plateaus, monotone, top-bin peaks, boundary maxima, peaks 2^-30 apart in float64 data) lifted to 2D and embedded in datasets, compared with a plain-loop reference peak finder; exhaustive enumeration of all short 1D profiles over {0,1,2,3}",
     "All 1D profiles of length 3..7 over a 4-letter alphabet are checked exhaustively for tp/fp/alpha/gamma and the NaN clause; multi-dimensional, directional and float32 cases are sampled (hundreds quick / tens of thousands thorough), with every peak class counted in evidence.",
     "Trusts the reference peak finder / parabola / tail-fit window re-derivation in vf/props/c02.py and vf/ref/stats.py; ties between equal peaks accept any of the tied peaks; float32 output precision tolerances as stated in the evidence assumptions.",
     "DESIGN.md section 5 C02",
@@ -29,9 +29,9 @@ check(
 )
 check(
     "C03",
-    "Hypothesis-generated spectra / winds / requested counts (drawn relative to the detected number of basins) checked with validity predicates from the statement plus a differential re-assembly of wind sea / swells from the watershed label map",
+    "Hypothesis-generated spectra / winds / requested counts (drawn relative to the detected number of basins) checked with validity predicates from the statement plus a differential re-assembly of wind sea / swells from the watershed label map (itself validated against an independent flood-fill reference, also after the routine was used on another grid of the same bin count); accessor calls on 64-160 one-chunk spectra under 4-16 dask threads",
     "Thousands (quick) / >100k (thorough) array-level cases over all three methods and accessor-level cases on multi-dimensional datasets with per-position winds and smoothing; every clause (value-or-zero, disjointness, conservation when requested >= detected, count, order with tie groups, dropped-are-smallest) is asserted on each. Exploration.",
-    "Trusts the watershed label map itself (C04 verifies it) and the independent trapezoid Hs used for ordering; wave-age boundary bins within 1e-9 skip only the differential comparison.",
+    "Trusts the independent flood-fill reference (vf/ref/watershed.py) that every label map is required to agree with before it is used to re-assemble the expected partitions, and the independent trapezoid Hs used for ordering; wave-age boundary bins within 1e-9 skip only the differential comparison; the threaded facet samples interleavings, it does not own the schedule.",
     "DESIGN.md section 5 C03",
 )
 check(
@@ -50,7 +50,7 @@ check(
 )
 check(
     "C07",
-    "differential: Hypothesis draws (dataset, chunking of every dimension incl. freq/dir, scheduler, operations) and compares the computed dask result with the in-memory result; mixed-shape partition graphs computed together under the threaded scheduler",
+    "differential: Hypothesis draws (dataset, chunking of every dimension incl. freq/dir, scheduler, operations) and compares the computed dask result with the in-memory result; mixed-shape partition graphs computed together under the threaded scheduler; after every computation the process-wide warnings filters must hold no \"error\" entry",
     "Hundreds (quick) / tens of thousands (thorough) of (chunking, scheduler, operation) combinations over the whole catalogue plus stats / scale_by_hs / fit_jonswap / ptm1_track, and batches of 2-5 partition graphs of different spectral shapes under 2/4/16 worker threads. The chunking and scheduler quantifiers are swept; thread interleavings are sampled (see level_note).",
     "The harness does not own dask's scheduler: interleavings are sampled at task granularity (the C entry point holds the GIL). A data race inside one C call would need a schedule-owning tool; releasing the GIL in the wrapper is nevertheless caught by the mixed-shape batches (crash / differing result).",
     "DESIGN.md section 5 C07",
@@ -106,7 +106,7 @@ check(
 )
 check(
     "C18",
-    "model-based generation of histories (accessor calls, in-place edits, partition calls on other shapes, bad statistic names, attribute-table look-ups, reader calls) interpreted against a plain-numpy model; every observation compared with a fresh object and with a pristine forked process that never executed an operation",
+    "model-based generation of histories (accessor calls, in-place edits, partition calls on other shapes, bad statistic names, attribute-table look-ups, reader calls, file write/read round trips, fits) interpreted against a plain-numpy model; every observation compared with a fresh object, and the first four / every raising one / those following a fit, reader or file step also with a pristine forked process that never executed an operation",
     "Hundreds (quick) / thousands (thorough) of histories of up to 12 / 30 steps on 1-3 live objects; values and attributes compared bit for bit; Dataset accessor vs efth accessor compared at every observation. Exploration over histories.",
     "Histories are explicit step lists (a JSON replay file is the history) rather than a RuleBasedStateMachine; the pristine process is forked from a server that imported the library but never ran an operation; operations needing live wind fields on bare DataArrays are compared in-process only.",
     "DESIGN.md section 5 C18",
